@@ -385,31 +385,48 @@ static void do_site(const char *kind, char **w, int n) {
 /* ------------------------------------------------------------------ lksmoke (support: TSan multi-thread run) */
 static const char *smoke_bin;
 static void do_smoke(const char *n, const char *seed, const char *ms) {
-  char cmd[1024], buf[2048], last[512] = "no-output", race[512] = "";
+  /* canonical result: the program's last stdout line (`ok` / `stuck …`) or, if ThreadSanitizer reported anything,
+   * `tsan:` + the sorted distinct reports as <kind>@<global object | function> (no addresses, paths, line numbers) */
+  static char cmd[1024], buf[4096], last[512], ent[16][256];
+  char kind[128] = "", loc[128] = "";
+  int nent = 0;
   if (!smoke_bin) { printf("no-smoke-binary"); return; }
+  snprintf(last, sizeof(last), "no-output");
   snprintf(cmd, sizeof(cmd), "TSAN_OPTIONS='halt_on_error=0 report_signal_unsafe=0 exitcode=0' %s %d %d %d 2>&1",
            smoke_bin, atoi(n), atoi(seed), atoi(ms));
   FILE *f = popen(cmd, "r");
   if (!f) { printf("popen-failed"); return; }
   while (fgets(buf, sizeof(buf), f)) {
+    char *q;
     buf[strcspn(buf, "\r\n")] = 0;
-    if (!race[0] && strstr(buf, "SUMMARY: ThreadSanitizer:")) {
-      /* canonical: kind + function, no addresses / paths / line numbers */
-      char *k = strstr(buf, "ThreadSanitizer: ") + 17;
-      char *in = strstr(k, " in ");
-      char kind[128];
-      size_t l = strcspn(k, "/(");
+    if ((q = strstr(buf, "WARNING: ThreadSanitizer: "))) {
+      q += 26;
+      size_t l = strcspn(q, "(");
+      while (l && q[l - 1] == ' ') l--;
       if (l >= sizeof(kind)) l = sizeof(kind) - 1;
-      memcpy(kind, k, l); kind[l] = 0;
-      while (l && kind[l - 1] == ' ') kind[--l] = 0;
+      memcpy(kind, q, l); kind[l] = 0;
       for (char *c = kind; *c; c++) if (*c == ' ') *c = '-';
-      snprintf(race, sizeof(race), "tsan:%s@%s", kind, in ? in + 4 : "?");
-    }
-    if (buf[0]) snprintf(last, sizeof(last), "%s", buf);
+      loc[0] = 0;
+    } else if ((q = strstr(buf, "Location is global '"))) {
+      q += 20;
+      size_t l = strcspn(q, "'");
+      if (l >= sizeof(loc)) l = sizeof(loc) - 1;
+      memcpy(loc, q, l); loc[l] = 0;
+    } else if ((q = strstr(buf, "SUMMARY: ThreadSanitizer:"))) {
+      char e[256], *in = strstr(q, " in ");
+      snprintf(e, sizeof(e), "%s@%s", kind[0] ? kind : "report", !strcmp(loc, "global_lock") ? loc : in ? in + 4 : "?");
+      int dup = 0;
+      for (int i = 0; i < nent; i++) if (!strcmp(ent[i], e)) dup = 1;
+      if (!dup && nent < 16) snprintf(ent[nent++], sizeof(ent[0]), "%s", e);
+    } else if (buf[0] && !strstr(buf, "ThreadSanitizer") && buf[0] != '=' && buf[0] != ' ')
+      snprintf(last, sizeof(last), "%s", buf);
   }
   pclose(f);
-  if (race[0]) { for (char *c = race; *c; c++) if (*c == ' ') *c = '_'; printf("%s", race); }
-  else { for (char *c = last; *c; c++) if (*c == ' ') *c = '_'; printf("%s", last); }
+  if (nent) {
+    qsort(ent, (size_t)nent, sizeof(ent[0]), (int (*)(const void *, const void *))strcmp);
+    printf("tsan:");
+    for (int i = 0; i < nent; i++) { for (char *c = ent[i]; *c; c++) if (*c == ' ') *c = '_'; printf("%s%s", i ? ";" : "", ent[i]); }
+  } else { for (char *c = last; *c; c++) if (*c == ' ') *c = '_'; printf("%s", last); }
 }
 
 /* ------------------------------------------------------------------ main */
